@@ -96,7 +96,12 @@ impl Prop for Startup {
         }
     }
     fn floors() -> Vec<(&'static str, u32)> {
-        vec![("restart_seen", 100), ("retry_checked", 100), ("unsol_before_integrity", 30), ("reconnect", 50)]
+        vec![
+            ("restart_seen", 100),
+            ("retry_checked", 100),
+            ("unsol_before_integrity", 30),
+            ("reconnect", 50),
+        ]
     }
     fn strategy(tier: Tier) -> BoxedStrategy<Case> {
         let beh = prop_oneof![
@@ -111,8 +116,37 @@ impl Prop for Startup {
             1 => Just(Inject::Reconnect),
         ];
         let n = if tier == Tier::Quick { 16 } else { 40 };
-        (0u8..8, 0u8..8, proptest::option::weighted(0.8, 0u8..8), 0u8..3, prop_oneof![Just(50u16), Just(100), 20u16..300], 0u16..1000, any::<bool>(), proptest::collection::vec((beh, inject), 1..n))
-            .prop_map(|(disable_mask, enable_mask, integrity, time_sync, retry_min, extra, poll, script)| Case { disable_mask, enable_mask, integrity, time_sync, retry_min, retry_max: retry_min.saturating_add(extra), poll, script })
+        (
+            0u8..8,
+            0u8..8,
+            proptest::option::weighted(0.8, 0u8..8),
+            0u8..3,
+            prop_oneof![Just(50u16), Just(100), 20u16..300],
+            0u16..1000,
+            any::<bool>(),
+            proptest::collection::vec((beh, inject), 1..n),
+        )
+            .prop_map(
+                |(
+                    disable_mask,
+                    enable_mask,
+                    integrity,
+                    time_sync,
+                    retry_min,
+                    extra,
+                    poll,
+                    script,
+                )| Case {
+                    disable_mask,
+                    enable_mask,
+                    integrity,
+                    time_sync,
+                    retry_min,
+                    retry_max: retry_min.saturating_add(extra),
+                    poll,
+                    script,
+                },
+            )
             .boxed()
     }
     fn run(case: &Case) -> CaseOut {
@@ -147,16 +181,37 @@ async fn run_case(case: &Case) -> CaseOut {
         2 => Some(TimeSyncProcedure::NonLan),
         _ => None,
     };
-    cfg.auto_tasks_retry_strategy = RetryStrategy::new(Duration::from_millis(case.retry_min as u64), Duration::from_millis(case.retry_max as u64));
+    cfg.auto_tasks_retry_strategy = RetryStrategy::new(
+        Duration::from_millis(case.retry_min as u64),
+        Duration::from_millis(case.retry_max as u64),
+    );
     rig.add_association(OUT, cfg, Some(1_000_000)).await;
     if case.poll {
         let mut h = rig.assocs[&OUT].handle.clone();
         let p = rig.polls.clone();
-        tokio::spawn(crate::verif::rig::Counted::new(async move { h.add_poll(ReadRequest::class_scan(Classes::new(false, EventClasses::new(true, false, false))), Duration::from_millis(POLL_PERIOD)).await }, p));
+        tokio::spawn(crate::verif::rig::Counted::new(
+            async move {
+                h.add_poll(
+                    ReadRequest::class_scan(Classes::new(
+                        false,
+                        EventClasses::new(true, false, false),
+                    )),
+                    Duration::from_millis(POLL_PERIOD),
+                )
+                .await
+            },
+            p,
+        ));
         rig.settle().await;
     }
     let fresh = |case: &Case| Model {
-        need: [false, case.disable_mask & 7 != 0, case.integrity.is_some(), false, case.enable_mask & 7 != 0],
+        need: [
+            false,
+            case.disable_mask & 7 != 0,
+            case.integrity.is_some(),
+            false,
+            case.enable_mask & 7 != 0,
+        ],
         fails: [(0, None, 0); 5],
         open: [false; 5],
         integrity_done: case.integrity.is_none(),
@@ -233,14 +288,23 @@ async fn run_case(case: &Case) -> CaseOut {
             _ => None,
         };
         let continuing_time_sync = kind == Kind::Time && m.time_step > 0;
-        let ok_order = continuing_time_sync || sent_before_indication || match (ki, due) {
-            (Some(k), Some(d)) => k == d || (open_before.contains(&k) && k < d),
-            (Some(k), None) => open_before.contains(&k),
-            (None, Some(_)) => false,
-            (None, None) => kind == Kind::Poll,
-        } || (kind == Kind::Poll && due.is_none());
+        let ok_order = continuing_time_sync
+            || sent_before_indication
+            || match (ki, due) {
+                (Some(k), Some(d)) => k == d || (open_before.contains(&k) && k < d),
+                (Some(k), None) => open_before.contains(&k),
+                (None, Some(_)) => false,
+                (None, None) => kind == Kind::Poll,
+            }
+            || (kind == Kind::Poll && due.is_none());
         if !ok_order {
-            let names = ["CLEAR_RESTART", "DISABLE_UNSOLICITED", "INTEGRITY", "TIME_SYNC", "ENABLE_UNSOLICITED"];
+            let names = [
+                "CLEAR_RESTART",
+                "DISABLE_UNSOLICITED",
+                "INTEGRITY",
+                "TIME_SYNC",
+                "ENABLE_UNSOLICITED",
+            ];
             out.fail(
                 Fail::new(
                     "startup-order",
@@ -290,7 +354,16 @@ async fn run_case(case: &Case) -> CaseOut {
             out.nontrivial = true;
         }
         // --- reply ---
-        let mut r = Fragment { fir: true, fin: true, con: false, uns: false, seq: f.seq, func: func::RESPONSE, iin: Some((0, 0)), objects: vec![] };
+        let mut r = Fragment {
+            fir: true,
+            fin: true,
+            con: false,
+            uns: false,
+            seq: f.seq,
+            func: func::RESPONSE,
+            iin: Some((0, 0)),
+            objects: vec![],
+        };
         if f.func == func::READ {
             r.objects = ra::h_range8(1, 2, 0, 1, &[0x81, 0x01]);
         }
@@ -331,7 +404,18 @@ async fn run_case(case: &Case) -> CaseOut {
                         let _ = kix;
                     }
                     // fall through without touching need/fails
-                    inject_after(&mut rig, &mut m, case, inject, &mut unsol_seq, &mut out, &on_iin, &fresh, &mut pre_sent).await;
+                    inject_after(
+                        &mut rig,
+                        &mut m,
+                        case,
+                        inject,
+                        &mut unsol_seq,
+                        &mut out,
+                        &on_iin,
+                        &fresh,
+                        &mut pre_sent,
+                    )
+                    .await;
                     continue;
                 }
             }
@@ -379,7 +463,18 @@ async fn run_case(case: &Case) -> CaseOut {
                 m.time_step = 0;
             }
         }
-        inject_after(&mut rig, &mut m, case, inject, &mut unsol_seq, &mut out, &on_iin, &fresh, &mut pre_sent).await;
+        inject_after(
+            &mut rig,
+            &mut m,
+            case,
+            inject,
+            &mut unsol_seq,
+            &mut out,
+            &on_iin,
+            &fresh,
+            &mut pre_sent,
+        )
+        .await;
     }
     if let Some(f) = rig.task_failure.take() {
         out.fail(f);
@@ -388,7 +483,17 @@ async fn run_case(case: &Case) -> CaseOut {
 }
 
 #[allow(clippy::too_many_arguments)]
-async fn inject_after(rig: &mut MasterRig, m: &mut Model, case: &Case, inject: &Inject, unsol_seq: &mut u8, out: &mut CaseOut, on_iin: &dyn Fn(&mut Model, &Case, u8), fresh: &dyn Fn(&Case) -> Model, pre_sent: &mut Vec<Vec<u8>>) {
+async fn inject_after(
+    rig: &mut MasterRig,
+    m: &mut Model,
+    case: &Case,
+    inject: &Inject,
+    unsol_seq: &mut u8,
+    out: &mut CaseOut,
+    on_iin: &dyn Fn(&mut Model, &Case, u8),
+    fresh: &dyn Fn(&Case) -> Model,
+    pre_sent: &mut Vec<Vec<u8>>,
+) {
     match inject {
         Inject::None => {}
         Inject::Reconnect => {
@@ -400,11 +505,30 @@ async fn inject_after(rig: &mut MasterRig, m: &mut Model, case: &Case, inject: &
         }
         Inject::Unsol(with_data, i1) => {
             *unsol_seq = (*unsol_seq + 1) & 0x0F;
-            let objects = if *with_data { ra::h_prefixed16(2, 1, &[(40 + *unsol_seq as u16, vec![0x81])]) } else { vec![] };
-            let f = Fragment { fir: true, fin: true, con: true, uns: true, seq: *unsol_seq, func: func::UNSOLICITED_RESPONSE, iin: Some((*i1, 0)), objects };
+            let objects = if *with_data {
+                ra::h_prefixed16(2, 1, &[(40 + *unsol_seq as u16, vec![0x81])])
+            } else {
+                vec![]
+            };
+            let f = Fragment {
+                fir: true,
+                fin: true,
+                con: true,
+                uns: true,
+                seq: *unsol_seq,
+                func: func::UNSOLICITED_RESPONSE,
+                iin: Some((*i1, 0)),
+                objects,
+            };
             let _ = rig.assocs[&OUT].read.take();
             // the indications of the unsolicited response itself count: RESTART re-arms the integrity poll
-            let mut probe = Model { need: m.need, fails: m.fails, open: m.open, integrity_done: m.integrity_done, time_step: m.time_step };
+            let mut probe = Model {
+                need: m.need,
+                fails: m.fails,
+                open: m.open,
+                integrity_done: m.integrity_done,
+                time_step: m.time_step,
+            };
             on_iin(&mut probe, case, *i1);
             let gated = *with_data && !probe.integrity_done;
             if gated {
@@ -422,7 +546,12 @@ async fn inject_after(rig: &mut MasterRig, m: &mut Model, case: &Case, inject: &
             rig.respond(OUT, &f);
             rig.settle().await;
             on_iin(m, case, *i1);
-            let delivered: Vec<HEv> = rig.assocs[&OUT].read.take().into_iter().filter(|e| matches!(e, HEv::Begin(..))).collect();
+            let delivered: Vec<HEv> = rig.assocs[&OUT]
+                .read
+                .take()
+                .into_iter()
+                .filter(|e| matches!(e, HEv::Begin(..)))
+                .collect();
             let tx = rig.take_tx();
             let confirms = tx.iter().filter(|t| matches!(t, MTx::Fragment { bytes, .. } if bytes.len() >= 2 && bytes[1] == func::CONFIRM && bytes[0] & 0x10 != 0 && bytes[0] & 0x0F == *unsol_seq)).count();
             // put back any request fragment we drained
@@ -440,7 +569,13 @@ async fn inject_after(rig: &mut MasterRig, m: &mut Model, case: &Case, inject: &
             } else if confirms != 1 {
                 out.fail(Fail::new("unsolicited-not-confirmed", format!("acceptable unsolicited response (data={with_data}) was confirmed {confirms} times")));
             } else if *with_data && delivered.len() != 1 {
-                out.fail(Fail::new("unsolicited-not-delivered", format!("unsolicited data after start-up delivered {} times", delivered.len())));
+                out.fail(Fail::new(
+                    "unsolicited-not-delivered",
+                    format!(
+                        "unsolicited data after start-up delivered {} times",
+                        delivered.len()
+                    ),
+                ));
             }
         }
     }
